@@ -6,12 +6,14 @@ import (
 	"os"
 
 	"verifharness/c05"
+	"verifharness/c09"
 	"verifharness/c18"
 	"verifharness/wk"
 )
 
 var runners = map[string]func(*wk.Job, *wk.Worker) error{
 	"c05": c05.Run,
+	"c09": c09.Run,
 	"c18": c18.Run,
 }
 
